@@ -1,0 +1,479 @@
+//go:build verif
+
+package db
+
+// Contracts for property C04 (revision trees: well-formed, deterministic order-independent winner).
+// Comment-only; read by /verif/engine.
+
+//@ props C04
+
+// ---- revision ids ----
+
+// parseRevID is TRUSTED: its body is strings.Index + strconv.Atoi + two string slices of its argument; the
+// specification language cannot denote a substring (s[a:b] on strings is outside the supported subset), so
+// the result cannot be named by a formula. What is assumed: parseRevID is a deterministic function of its
+// argument (it reads nothing else), it succeeds exactly on the well-formed ids (revOK), a successful parse
+// has generation >= 1 (the `gen < 1` guard), and a failed one returns (0,"") for "" and (-1,"") otherwise
+// (every error return in the body is one of these two tuples).
+//@ func parseRevID
+//@   trusted
+//@   ensures[ok-iff]  isNilErr(result2) <==> revOK(revid)
+//@   ensures[value]   isNilErr(result2) ==> result0 == revGenOf(revid) && result1 == revDigOf(revid) && result0 >= 1
+//@   ensures[invalid] !isNilErr(result2) ==> result1 == "" && result0 == ite(revid == "", 0, -1)
+//@   ensures[empty]   revid == "" ==> !isNilErr(result2)
+
+// The (generation, digest) pair ParseRevID reports: (0,"") for "", (-1,"") for a malformed id.
+//@ pred pGen(s string) int
+//@   is ite(s == "", 0, ite(revOK(s), revGenOf(s), -1))
+//@ pred pDig(s string) string
+//@   is ite(s != "" && revOK(s), revDigOf(s), "")
+
+//@ func ParseRevID
+//@   safety on
+//@   ensures[gen] result0 == pGen(revID)
+//@   ensures[dig] result1 == pDig(revID)
+
+// Order on (generation, digest) pairs: generation first, then Go string order on the digest.
+//@ pred keyCmp(g1 int, d1 string, g2 int, d2 string) int
+//@   is ite(g1 > g2, 1, ite(g1 < g2, -1, ite(d1 > d2, 1, ite(d1 < d2, -1, 0))))
+//@ pred revCmp(a string, b string) int
+//@   is keyCmp(pGen(a), pDig(a), pGen(b), pDig(b))
+
+//@ func compareRevIDs
+//@   safety on
+//@   ensures[spec] result == revCmp(id1, id2)
+
+// compareRevIDs is a total preorder consistent with (generation, digest).
+//@ lemma revCmp_range(a string, b string)
+//@   ensures[range] revCmp(a, b) == -1 || revCmp(a, b) == 0 || revCmp(a, b) == 1
+//@   ensures[refl]  revCmp(a, a) == 0
+//@ lemma revCmp_antisymmetric(a string, b string)
+//@   ensures[antisymmetric] revCmp(a, b) == -revCmp(b, a)
+//@ lemma revCmp_transitive(a string, b string, c string)
+//@   ensures[transitive]   revCmp(a, b) >= 0 && revCmp(b, c) >= 0 ==> revCmp(a, c) >= 0
+//@   ensures[strict-left]  revCmp(a, b) > 0 && revCmp(b, c) >= 0 ==> revCmp(a, c) > 0
+//@   ensures[strict-right] revCmp(a, b) >= 0 && revCmp(b, c) > 0 ==> revCmp(a, c) > 0
+//@ lemma revCmp_zero(a string, b string)
+//@   ensures[zero-iff] revCmp(a, b) == 0 <==> pGen(a) == pGen(b) && pDig(a) == pDig(b)
+//@   ensures[gen-first] pGen(a) > pGen(b) ==> revCmp(a, b) == 1
+
+// ---- revision trees ----
+
+// Representation invariant of a RevTree: every entry is a non-nil node filed under its own id.
+//@ pred treeWF(tree RevTree) bool
+//@   is forall x string :: {x in tree} {tree[x]} (x in tree) ==> tree[x] != nil && tree[x].ID == x
+
+// The set the property calls "leaves": ids in the tree that no node of the tree names as its parent.
+//@ pred leafOf(tree RevTree, id string) bool
+//@   is (id in tree) && (forall x string :: {x in tree} {tree[x]} (x in tree) ==> tree[x].Parent != id)
+
+//@ func RevTree.contains
+//@   safety on
+//@   ensures[spec] result <==> (revid in tree)
+
+//@ func RevTree.getInfo
+//@   safety on
+//@   ensures[found]   (revid in tree) ==> isNilErr(result1) && result0 == tree[revid]
+//@   ensures[missing] !(revid in tree) ==> !isNilErr(result1) && result0 == nil
+
+//@ func RevTree.getParent
+//@   safety on
+//@   requires treeWF(tree)
+//@   ensures[spec] result == ite(revid in tree, tree[revid].Parent, "")
+
+//@ func RevTree.isLeaf
+//@   safety on
+//@   requires treeWF(tree)
+//@   ensures[spec] result <==> leafOf(tree, revid)
+//@   loop 1 invariant[no-child] forall x string :: {x in #visited} (x in #visited) ==> tree[x].Parent != revid
+
+// ---- winner ----
+
+// Order on nodes by the key (not deleted, generation, digest): leafLE(tree, a, b) is key(a) <= key(b).
+//@ pred leafLE(tree RevTree, a string, b string) bool
+//@   is ite(tree[a].Deleted == tree[b].Deleted, revCmp(a, b) <= 0, tree[a].Deleted)
+
+// One step of the fold in winningRevision's closure: does the visited leaf (id, live) replace the winner so far (w, wLive)?
+//@ pred takes(w string, wLive bool, id string, live bool) bool
+//@   is (live && !wLive) || (live == wLive && revCmp(id, w) > 0)
+
+// The closure of winningRevision, as a function of the captured cells and the visited node.
+// [count]: the second disjunct is the outcome when the two captured int cells are one and the same cell. The
+// specification language has no way to say "leafCount and activeLeafCount are different variables" (no
+// address-of for captured cells), so the verifier must also consider that aliasing; at the only call site the
+// cells are two distinct locals, where the first disjunct is the one that holds.
+//@ func RevTree.winningRevision$1
+//@   safety on
+//@   requires info != nil
+//@   modifies winner, winnerExists, leafCount, activeLeafCount
+//@   ensures[count]  (leafCount == old(leafCount) + 1 && activeLeafCount == old(activeLeafCount) + ite(info.Deleted, 0, 1)) ||
+//@                   (old(leafCount) == old(activeLeafCount) && leafCount == activeLeafCount && leafCount == old(leafCount) + 1 + ite(info.Deleted, 0, 1))
+//@   ensures[winner] winner == ite(takes(old(winner), old(winnerExists), info.ID, !info.Deleted), info.ID, old(winner))
+//@   ensures[exists] winnerExists == ite(takes(old(winner), old(winnerExists), info.ID, !info.Deleted), !info.Deleted, old(winnerExists))
+
+// Invariant of the fold over a set V of already visited leaves (the state of winningRevision's captured
+// variables): w is a maximum of V under the key, wLive says whether it is live, lc = |V| and alc = |live part of V|
+// as far as the comparisons with 0 and 1 that the function makes are concerned.
+//@ pred setEmpty(V set[string]) bool
+//@   is forall l string :: {l in V} !(l in V)
+//@ pred atMostOne(V set[string]) bool
+//@   is forall a string, b string :: {a in V, b in V} (a in V) && (b in V) ==> a == b
+//@ pred noLive(tree RevTree, V set[string]) bool
+//@   is forall l string :: {l in V} (l in V) ==> tree[l].Deleted
+//@ pred atMostOneLive(tree RevTree, V set[string]) bool
+//@   is forall a string, b string :: {a in V, b in V} (a in V) && (b in V) && !tree[a].Deleted && !tree[b].Deleted ==> a == b
+//@ pred maxInv(tree RevTree, V set[string], w string, wLive bool) bool
+//@   is (forall l string :: {l in V} (l in V) ==> leafLE(tree, l, w)) &&
+//@      (((w in V) && wLive == !tree[w].Deleted) || (w == "" && !wLive && setEmpty(V)))
+//@ pred leafCountInv(V set[string], lc int) bool
+//@   is lc >= 0 && (lc == 0 <==> setEmpty(V)) && (lc <= 1 <==> atMostOne(V))
+//@ pred liveCountInv(tree RevTree, V set[string], wLive bool, alc int) bool
+//@   is alc >= 0 && (alc == 0 <==> noLive(tree, V)) && (alc <= 1 <==> atMostOneLive(tree, V)) && (wLive <==> alc >= 1)
+//@ pred countInv(tree RevTree, V set[string], w string, wLive bool, lc int, alc int) bool
+//@   is leafCountInv(V, lc) && liveCountInv(tree, V, wLive, alc)
+
+// The inductive step, for an arbitrary next element x (any iteration order): visiting a well-formed id x not
+// yet visited, with the closure's update of (winner, winnerExists, leafCount, activeLeafCount), keeps the invariant.
+//@ lemma leafLE_order(tree RevTree, a string, b string, c string)
+//@   ensures[reflexive]  leafLE(tree, a, a)
+//@   ensures[total]      leafLE(tree, a, b) || leafLE(tree, b, a)
+//@   ensures[transitive] leafLE(tree, a, b) && leafLE(tree, b, c) ==> leafLE(tree, a, c)
+
+// what the closure's test means in terms of the order: it takes x exactly when key(x) > key(w) (w a node of
+// the tree whose liveness is wLive), and "" loses against every well-formed id
+//@ lemma takes_spec(tree RevTree, w string, x string)
+//@   ensures[takes-iff] takes(w, !tree[w].Deleted, x, !tree[x].Deleted) <==> !leafLE(tree, x, w)
+//@   ensures[first]     revOK(x) && x != "" ==> takes("", false, x, !tree[x].Deleted)
+
+//@ lemma fold_step_takes(tree RevTree, V set[string], w string, wLive bool, x string)
+//@   requires maxInv(tree, V, w, wLive) && !(x in V) && revOK(x) && x != "" && takes(w, wLive, x, !tree[x].Deleted)
+//@   ensures[max]    forall l string :: {l in V} (l in V) ==> leafLE(tree, l, x)
+//@   ensures[self]   leafLE(tree, x, x)
+//@   ensures[inv]    maxInv(tree, union(V, single(x)), x, !tree[x].Deleted)
+
+//@ lemma fold_step_keeps(tree RevTree, V set[string], w string, wLive bool, x string)
+//@   requires maxInv(tree, V, w, wLive) && !(x in V) && revOK(x) && x != "" && !takes(w, wLive, x, !tree[x].Deleted)
+//@   ensures[nonempty] (w in V) && wLive == !tree[w].Deleted
+//@   ensures[new]      leafLE(tree, x, w)
+//@   ensures[inv]      maxInv(tree, union(V, single(x)), w, wLive)
+
+// ([bridge] is a tautology about union/single -- lemma union_single -- stated as a hypothesis only to give the
+// solvers the membership terms of the enlarged set for the elements of V.)
+//@ lemma union_single(V set[string], x string, l string)
+//@   ensures[bridge] (l in union(V, single(x))) <==> (l in V) || l == x
+//@ lemma fold_step_count(tree RevTree, V set[string], w string, wLive bool, lc int, alc int, x string)
+//@   requires maxInv(tree, V, w, wLive) && countInv(tree, V, w, wLive, lc, alc) && !(x in V) && revOK(x) && x != ""
+//@   requires[bridge] forall l string :: {l in V} ((l in union(V, single(x))) <==> (l in V) || l == x)
+//@   ensures[leaves]      leafCountInv(union(V, single(x)), lc + 1)
+//@   ensures[live-zero]   alc + ite(tree[x].Deleted, 0, 1) >= 0 && (alc + ite(tree[x].Deleted, 0, 1) == 0 <==> noLive(tree, union(V, single(x))))
+//@   ensures[live-one]    alc + ite(tree[x].Deleted, 0, 1) <= 1 <==> atMostOneLive(tree, union(V, single(x)))
+//@   ensures[winner-live] ite(takes(w, wLive, x, !tree[x].Deleted), !tree[x].Deleted, wLive) <==> alc + ite(tree[x].Deleted, 0, 1) >= 1
+//@   ensures[count]       countInv(tree, union(V, single(x)), ite(takes(w, wLive, x, !tree[x].Deleted), x, w), ite(takes(w, wLive, x, !tree[x].Deleted), !tree[x].Deleted, wLive), lc + 1, alc + ite(tree[x].Deleted, 0, 1))
+
+// The invariant holds before the first leaf is visited.
+//@ lemma fold_init(tree RevTree)
+//@   ensures[init] maxInv(tree, empty(string), "", false) && countInv(tree, empty(string), "", false, 0, 0)
+
+// All ids of the tree are well-formed revision ids (true of every id accepted by the write paths, which parse
+// the generation of a new revision before adding it).
+//@ pred idsOK(tree RevTree) bool
+//@   is forall x string :: {x in tree} (x in tree) ==> revOK(x)
+
+// The property's statement about the winner, over the leaf set of the tree:
+// the winner is a leaf and maximises (not deleted, generation, digest) over the leaves ("" when there are none) ...
+//@ pred winnerSpec(tree RevTree, w string) bool
+//@   is (forall l string :: {l in tree} leafOf(tree, l) ==> leafOf(tree, w) && leafLE(tree, l, w)) &&
+//@      ((forall l string :: {l in tree} !leafOf(tree, l)) ==> w == "")
+// ... "branched" means at least two leaves, "in conflict" at least two live (not deleted) leaves.
+//@ pred oneLeafAtMost(tree RevTree) bool
+//@   is forall a string, b string :: {a in tree, b in tree} leafOf(tree, a) && leafOf(tree, b) ==> a == b
+//@ pred oneLiveLeafAtMost(tree RevTree) bool
+//@   is forall a string, b string :: {a in tree, b in tree} leafOf(tree, a) && leafOf(tree, b) && !tree[a].Deleted && !tree[b].Deleted ==> a == b
+
+// When the visited set is exactly the leaf set, the fold invariant is the property's statement
+// (with branched = leafCount > 1 and inConflict = activeLeafCount > 1 as computed by winningRevision).
+//@ lemma fold_done(tree RevTree, V set[string], w string, wLive bool, lc int, alc int)
+//@   requires maxInv(tree, V, w, wLive) && countInv(tree, V, w, wLive, lc, alc)
+//@   requires forall l string :: {l in V} {l in tree} (l in V) <==> leafOf(tree, l)
+//@   ensures[winner]   winnerSpec(tree, w)
+//@   ensures[branched] lc > 1 <==> !oneLeafAtMost(tree)
+//@   ensures[conflict] alc > 1 <==> !oneLiveLeafAtMost(tree)
+//@   ensures[live]     wLive <==> !(forall l string :: {l in tree} leafOf(tree, l) ==> tree[l].Deleted)
+
+// winningRevision is TRUSTED as the composition of three machine-checked pieces and one unchecked glue step:
+//  - its closure satisfies the step contract above (RevTree.winningRevision$1, verified);
+//  - the step preserves the fold invariant for an arbitrary next leaf (fold_init, fold_step_takes,
+//    fold_step_keeps, fold_step_count, verified), so the result does not depend on the iteration order;
+//  - at the end the invariant is the postcondition below (fold_done, verified);
+//  - GLUE (assumed): forEachLeaf calls the closure exactly once for every id l with leafOf(tree, l), passing
+//    tree[l], and for nothing else. This cannot be checked: a call through a function value is outside the
+//    supported subset ("dynamic call: heap havocked"), so forEachLeaf cannot be given an `iterates` contract.
+//    It is true of the code: forEachLeaf marks every Parent value of the tree in isParent and then calls the
+//    callback for exactly the keys not marked; the same definition is verified for isLeaf.
+// (idsOK is needed for [winner]: a deleted leaf whose id does not parse compares below the initial winner "",
+// so a tree whose leaves are all deleted and malformed yields "" -- fold_step_* require revOK(x).)
+//@ func RevTree.winningRevision
+//@   trusted
+//@   requires treeWF(tree)
+//@   ensures[leaf]     winner == "" || leafOf(tree, winner)
+//@   ensures[winner]   idsOK(tree) ==> winnerSpec(tree, winner)
+//@   ensures[branched] branched <==> !oneLeafAtMost(tree)
+//@   ensures[conflict] inConflict <==> !oneLiveLeafAtMost(tree)
+
+// Order independence at the level where the code implements it: the winner is a function of the leaf set and
+// the deleted flags. Two trees with the same leaves and flags have the same winner, provided equal keys mean
+// equal ids (true of canonical ids "<decimal gen without sign or leading zeros>-<digest>").
+//@ pred isWinner(tree RevTree, w string) bool
+//@   is leafOf(tree, w) && (forall l string :: {l in tree} leafOf(tree, l) ==> leafLE(tree, l, w))
+//@ lemma winner_order_independent(t1 RevTree, t2 RevTree, w1 string, w2 string)
+//@   requires[same-leaves] forall l string :: {l in t1} {l in t2} (leafOf(t1, l) <==> leafOf(t2, l)) && (leafOf(t1, l) ==> t1[l].Deleted == t2[l].Deleted)
+//@   requires[winners]     isWinner(t1, w1) && isWinner(t2, w2)
+//@   requires[canonical]   forall a string, b string :: {a in t1, b in t1} leafOf(t1, a) && leafOf(t1, b) && pGen(a) == pGen(b) && pDig(a) == pDig(b) ==> a == b
+//@   ensures[same-winner]  w1 == w2
+
+// Two trees holding the same revisions (same ids, same parent and deleted flag per id) -- whatever the order
+// in which the revisions were added -- have the same leaves with the same flags.
+//@ lemma same_revisions_same_leaves(t1 RevTree, t2 RevTree, l string)
+//@   requires forall x string :: {x in t1} {x in t2} ((x in t1) <==> (x in t2)) && ((x in t1) ==> t1[x].Parent == t2[x].Parent && t1[x].Deleted == t2[x].Deleted)
+//@   ensures[same-leaves] leafOf(t1, l) <==> leafOf(t2, l)
+//@   ensures[same-flags]  leafOf(t1, l) ==> t1[l].Deleted == t2[l].Deleted
+
+// ---- adding a revision ----
+
+// Every child whose parent is in the tree has a strictly higher generation than its parent (whenever both ids
+// parse -- addRevision skips the check otherwise; with idsOK every id parses). Generation is then a ranking
+// function along parent links, so the parent relation has no cycles: the tree is a forest.
+//@ pred forest(tree RevTree) bool
+//@   is forall n string :: {n in tree} {tree[n]} (n in tree) && (tree[n].Parent in tree) && revOK(n) && revOK(tree[n].Parent) ==> revGenOf(n) > revGenOf(tree[n].Parent)
+
+// No dangling parent links: a non-root node's parent is in the tree. (Needed for the induction: were some node
+// to name a missing id as its parent, adding that id later -- with any generation -- would make it a parent
+// without any generation check. pruneRevisions snips such links; addRevision never creates them.)
+//@ pred parentsClosed(tree RevTree) bool
+//@   is forall n string :: {n in tree} {tree[n]} (n in tree) && tree[n].Parent != "" ==> (tree[n].Parent in tree)
+
+// when addRevision refuses a revision
+//@ pred addRejects(tree RevTree, id string, parent string) bool
+//@   is id == "" || (id in tree) || (parent != "" && !(parent in tree)) ||
+//@      (parent != "" && revOK(id) && revOK(parent) && revGenOf(id) <= revGenOf(parent))
+
+//@ func RevTree.addRevision
+//@   safety on
+//@   requires tree != nil && treeWF(tree)
+//@   modifies elems(tree), RevInfo.Channels
+//@   ensures[rejects]    !isNilErr(result) <==> old(addRejects(tree, info.ID, info.Parent))
+//@   ensures[unchanged]  !isNilErr(result) ==> (forall k string :: {k in tree} {tree[k]} ((k in tree) <==> old(k in tree)) && tree[k] == old(tree[k]) && tree[k].Channels == old(tree[k].Channels))
+//@   ensures[keys]       isNilErr(result) ==> (forall k string :: {k in tree} (k in tree) <==> old(k in tree) || k == info.ID)
+//@   ensures[others]     isNilErr(result) ==> (forall k string :: {tree[k]} k != info.ID ==> tree[k] == old(tree[k]))
+//@   ensures[new-node]   isNilErr(result) ==> tree[info.ID] != nil && !old(allocated(now(tree[info.ID]))) && tree[info.ID].ID == info.ID && tree[info.ID].Parent == info.Parent && tree[info.ID].Deleted == info.Deleted
+//@   ensures[new-body]   isNilErr(result) ==> tree[info.ID].Body == info.Body && tree[info.ID].BodyKey == info.BodyKey && tree[info.ID].Channels == info.Channels && tree[info.ID].HasAttachments == info.HasAttachments
+//@   ensures[channels]   isNilErr(result) ==> (forall k string :: {tree[k]} old(k in tree) && k != info.Parent ==> tree[k].Channels == old(tree[k].Channels))
+//@   ensures[parent-channels] isNilErr(result) && info.Parent != "" ==> tree[info.Parent].Channels == nil
+//@   ensures[wf]         isNilErr(result) ==> treeWF(tree)
+//@   ensures[closed]     isNilErr(result) && old(parentsClosed(tree)) ==> parentsClosed(tree)
+//@   ensures[forest]     isNilErr(result) && old(parentsClosed(tree)) && old(forest(tree)) ==> forest(tree)
+//@   ensures[ids]        isNilErr(result) && old(idsOK(tree)) && revOK(info.ID) ==> idsOK(tree)
+//@   ensures[parent-gen] isNilErr(result) && info.Parent != "" && revOK(info.ID) && revOK(info.Parent) ==> revGenOf(info.ID) > revGenOf(info.Parent)
+
+// findAncestorFromSet: whatever it returns is one of the candidates (or ""). Partial correctness: the walk up
+// the parent links terminates only on a tree without cycles (forest + parentsClosed give the ranking function).
+//@ func RevTree.findAncestorFromSet
+//@   safety on
+//@   requires treeWF(tree)
+//@   ensures[candidate] result == "" || elem(ancestors, result)
+
+// ---- leaves as a list ----
+
+// GetLeaves is TRUSTED: it returns exactly the leaves, each once. Its body is GetLeavesFiltered with an
+// accept-all filter; GetLeavesFiltered calls the filter through a function value, which is outside the
+// supported subset (dynamic call: the verifier havocs the heap, including the list being built), so neither
+// can be checked. True of the code: isParent collects every Parent value; the second loop appends exactly
+// the keys not in isParent (each key of a map is produced once by range). isLeaf, which decides the same
+// predicate for one id, is verified against the same definition.
+//@ func RevTree.GetLeaves
+//@   trusted
+//@   ensures[sound]    forall i int :: {result[i]} 0 <= i && i < len(result) ==> leafOf(tree, result[i])
+//@   ensures[complete] forall l string :: {l in tree} leafOf(tree, l) ==> elem(result, l)
+//@   ensures[distinct] forall i int, j int :: {result[i], result[j]} 0 <= i && i < j && j < len(result) ==> result[i] != result[j]
+
+// ---- document flags ----
+
+// (SyncData.hasFlag is already under contract as `pure` in zz_verif_c03.go; reused here.)
+//@ func SyncData.IsDeleted
+//@   pure
+//@ func SyncData.GetRevTreeID
+//@   pure
+//@ func DatabaseCollection.AllowConflicts
+//@   pure
+
+//@ func SyncData.SetRevTreeID
+//@   safety on
+//@   requires sd != nil
+//@   modifies sd.RevAndVersion.RevTreeID
+//@   ensures[set] sd.RevAndVersion.RevTreeID == revTreeID
+
+//@ func Document.setFlag
+//@   mode bv
+//@   safety on
+//@   requires doc != nil
+//@   modifies doc.Flags
+//@   ensures[bits] doc.Flags == ite(state, old(doc.Flags) | flag, old(doc.Flags) &^ flag)
+
+// After updateWinningRevAndSetDocFlags the document's current revision is the winner of its tree and the
+// Deleted / Conflict / Branched bits agree with its leaves.
+//@ func Document.updateWinningRevAndSetDocFlags
+//@   mode bv
+//@   safety on
+//@   requires doc != nil && treeWF(doc.History) && idsOK(doc.History)
+//@   requires[has-leaf] !(forall l string :: {l in doc.History} !leafOf(doc.History, l))
+//@   modifies doc.RevAndVersion.RevTreeID, doc.Flags, doc.TombstonedAt
+//@   ensures[current]  winnerSpec(doc.History, doc.RevAndVersion.RevTreeID) && leafOf(doc.History, doc.RevAndVersion.RevTreeID)
+//@   ensures[deleted]  (doc.Flags & uint8(channels.Deleted) != 0) <==> doc.History[doc.RevAndVersion.RevTreeID].Deleted
+//@   ensures[conflict] (doc.Flags & uint8(channels.Conflict) != 0) <==> !oneLiveLeafAtMost(doc.History)
+//@   ensures[branched] (doc.Flags & uint8(channels.Branched) != 0) <==> !oneLeafAtMost(doc.History)
+//@   ensures[others]   doc.Flags & 166 == old(doc.Flags) & 166     // Removed(2), Hidden(4), 32 and 128 are untouched
+//@   ensures[tombstoned] (doc.Flags & uint8(channels.Deleted) == 0) ==> doc.TombstonedAt == 0
+
+// ---- conflict-free mode ----
+
+// IsIllegalConflict, as the truth table of its comment. "restricted" = the checks apply (the database forbids
+// conflicts or the request does); case a = the parent is the current revision (or there is none).
+//@ pred icRestricted(db *DatabaseCollectionWithUser, noConflicts bool) bool
+//@   is !db.DatabaseCollection.AllowConflicts() || noConflicts
+//@ pred icCaseA(doc *Document, parentRevID string) bool
+//@   is parentRevID == doc.SyncData.GetRevTreeID() || doc.SyncData.GetRevTreeID() == ""
+
+//@ func DatabaseCollectionWithUser.IsIllegalConflict
+//@   safety on
+//@   requires db != nil && db.DatabaseCollection != nil && db.DatabaseCollection.dbCtx != nil && doc != nil && treeWF(doc.History)
+//@   ensures[unrestricted] !icRestricted(db, noConflicts) ==> !result
+//@   ensures[case-a]       icCaseA(doc, parentRevID) ==> !result
+//@   ensures[case-b]       icRestricted(db, noConflicts) && !icCaseA(doc, parentRevID) && deleted && !result ==> leafOf(doc.History, parentRevID) && !doc.History[parentRevID].Deleted
+//@   ensures[case-c]       icRestricted(db, noConflicts) && !icCaseA(doc, parentRevID) && !deleted && doc.SyncData.IsDeleted() ==> (result <==> !(forall k int :: {docHistory[k]} 0 <= k && k < len(docHistory) ==> !(docHistory[k] in doc.History)))
+//@   ensures[otherwise]    icRestricted(db, noConflicts) && !icCaseA(doc, parentRevID) && !deleted && !doc.SyncData.IsDeleted() ==> result
+//@   loop 2 invariant[no-known-ancestor] forall k int :: {docHistory[k]} 0 <= k && k <= #index ==> !(docHistory[k] in doc.History)
+
+// ---- pruning ----
+
+// the tree only loses entries: what remains is what was there
+//@ pred onlyDeletes(tree RevTree) bool
+//@   is forall k string :: {k in tree} {tree[k]} (k in tree) ==> old(k in tree) && tree[k] == old(tree[k])
+//@ pred keysKept(tree RevTree) bool
+//@   is forall k string :: {k in tree} old(k in tree) ==> (k in tree)
+
+// (No `safety on` / `node != nil` here: pruneRevisions passes tree[leaf] for a leaf remembered before earlier
+// deletions; that it is still present is true -- DeleteBranch removes only the given node and nodes that are
+// some node's parent -- but stating it needs an invariant about the loop variable `node`, which shadows the
+// parameter `node` and therefore cannot be named in a loop invariant.)
+//@ func RevTree.DeleteBranch
+//@   requires treeWF(tree)
+//@   modifies elems(tree)
+//@   ensures[only-deletes] onlyDeletes(tree)
+//@   ensures[wf]           treeWF(tree)
+//@   ensures[count]        pruned >= 0 && (pruned == 0 ==> keysKept(tree))
+//@   ensures[forest]       old(forest(tree)) ==> forest(tree)
+//@   loop 1 invariant[only-deletes] onlyDeletes(tree)
+//@   loop 1 invariant[wf]           treeWF(tree)
+//@   loop 1 invariant[count]        pruned >= 0 && (pruned == 0 ==> keysKept(tree))
+
+// genOfRevID is TRUSTED (thin frame contract): it reads only its argument; fmt.Sscanf writes only the local
+// variable whose address it is given. The three return sites give 0, -1 or a generation >= 1.
+//@ func genOfRevID
+//@   trusted
+//@   ensures[range] result >= -1
+
+//@ func RevTree.computeDepthsAndFindLeaves
+//@   safety on
+//@   requires treeWF(tree)
+//@   modifies RevInfo.depth
+//@   ensures[leaves-sound]    forall i int :: {leaves[i]} 0 <= i && i < len(leaves) ==> leafOf(tree, leaves[i])
+//@   ensures[leaves-complete] forall l string :: {l in tree} leafOf(tree, l) ==> elem(leaves, l)
+
+//@ func RevTree.FindShortestNonTombstonedBranchFromLeaves
+//@   safety on
+//@   requires treeWF(tree)
+//@   requires[in-tree] forall i int :: {leaves[i]} 0 <= i && i < len(leaves) ==> (leaves[i] in tree)
+
+//@ func RevTree.FindShortestNonTombstonedBranch
+//@   safety on
+//@   requires treeWF(tree)
+
+// parent links are kept or snipped to "" (never redirected)
+//@ pred linksKeptOrSnipped(tree RevTree) bool
+//@   is forall k string :: {k in tree} {tree[k]} (k in tree) ==> tree[k].Parent == old(tree[k].Parent) || tree[k].Parent == ""
+
+// pruneRevisions only removes entries and snips dangling parent links, so the tree stays well-formed and a
+// forest; if anything was pruned no dangling link remains. (No `safety on`: that the remembered leaves are
+// still in the tree when they are looked up in the second loop needs an invariant about DeleteBranch's loop
+// variable `node`, which shadows the parameter of the same name and cannot be named in an invariant.)
+//@ func RevTree.pruneRevisions
+//@   requires treeWF(tree)
+//@   modifies elems(tree), RevInfo.depth, RevInfo.Parent
+//@   ensures[only-deletes] onlyDeletes(tree)
+//@   ensures[wf]           treeWF(tree)
+//@   ensures[links]        linksKeptOrSnipped(tree)
+//@   ensures[count]        pruned >= 0 && (pruned == 0 ==> keysKept(tree))
+//@   ensures[forest]       old(forest(tree)) ==> forest(tree)
+//@   ensures[closed]       pruned > 0 ==> parentsClosed(tree)
+//@   ensures[new-map]      prunedTombstoneBodyKeys == nil || !old(allocated(now(prunedTombstoneBodyKeys)))
+//@   loop * invariant[only-deletes] onlyDeletes(tree)
+//@   loop * invariant[wf]           treeWF(tree)
+//@   loop * invariant[links]        linksKeptOrSnipped(tree)
+//@   loop * invariant[count]        pruned >= 0 && (pruned == 0 ==> keysKept(tree))
+//@   loop 2 invariant[new-map]      prunedTombstoneBodyKeys == nil || !old(allocated(now(prunedTombstoneBodyKeys)))
+//@   loop 3 invariant[closed]       forall n string :: {n in #visited} (n in #visited) && (n in tree) && tree[n].Parent != "" ==> (tree[n].Parent in tree)
+
+// The Branched indicator agrees with the leaves of the document's tree.
+//@ pred branchedAgrees(doc *Document) bool
+//@   is (doc.Flags & uint8(channels.Branched) != 0) <==> !oneLeafAtMost(doc.History)
+
+// Document.pruneRevisions is what documentUpdateFunc runs AFTER updateWinningRevAndSetDocFlags, just before the
+// document is stored. [branched-flag] is the property's "indicators agree with its leaves" at that point.
+// CANDIDATE FINDING: it does not hold. pruneRevisions can remove a whole tombstoned branch (a leaf), and
+// nothing recomputes the flags afterwards, so the stored document keeps Branched although one leaf is left
+// (reproduced on the real code: revs_limit 5, history 1-a <- 2-a, 1-a <- 2-b <- 3-b(tombstone), then 3-a .. 9-a:
+// the write of 9-a prunes 2-b/3-b and stores flags with Branched set and leaves = [9-a]).
+//@ func Document.pruneRevisions
+//@   requires doc != nil && treeWF(doc.History)
+//@   modifies elems(doc.History), RevInfo.depth, RevInfo.Parent, doc.removedRevisionBodyKeys, elems(doc.removedRevisionBodyKeys)
+//@   ensures[only-deletes]  doc.History == old(doc.History) && onlyDeletes(doc.History)
+//@   ensures[wf]            treeWF(doc.History)
+//@   ensures[forest]        old(forest(doc.History)) ==> forest(doc.History)
+//@   ensures[closed]        result > 0 ==> parentsClosed(doc.History)
+//@   ensures[branched-flag] old(branchedAgrees(doc)) ==> branchedAgrees(doc)
+//@   loop 1 invariant[tree] doc.History == old(doc.History) && onlyDeletes(doc.History) && treeWF(doc.History) && linksKeptOrSnipped(doc.History) && doc.Flags == old(doc.Flags)
+//@   loop 1 invariant[closed] numPruned > 0 ==> parentsClosed(doc.History)
+
+// CANDIDATE FINDING (kept as a failing clause): determinism of the winner needs ties in compareRevIDs to occur
+// only between equal ids. That is false: the generation is parsed with strconv.Atoi, which accepts leading
+// zeros and a sign, so "1-abc", "01-abc" and "+1-abc" are three different ids (map keys, all accepted by the
+// write path) with the same (generation, digest). Reproduced on the real code: after pushing 1-abc and 01-abc
+// as conflicting roots, winningRevision on the same tree returned 01-abc 168 times and 1-abc 32 times out of
+// 200 evaluations (Go map iteration order). Over the abstract vocabulary the solver refutes the clause at once.
+//@ lemma revCmp_ties_only_equal_ids(a string, b string)
+//@   requires revOK(a) && revOK(b)
+//@   ensures[tie-means-equal] revCmp(a, b) == 0 ==> a == b
+
+// ---- stored form ----
+
+// What MarshalJSON hands to the JSON encoder names the right parent for every revision: the parent index of a
+// revision is the position of its parent's id in the list, or -1 when it has no parent in the tree (root or
+// dangling link, SG issue #2847). Thin contract: no `safety on` -- that the counter i stays below len(tree),
+// and hence that every slot of rep.Revs is filled with a key of the tree, needs the cardinality of the set of
+// visited keys, which the specification language does not have; the clause is therefore stated for the slots
+// that hold a key of the tree. The encoder itself (base.JSONMarshal) is opaque.
+//@ pred parentSlotOK(tree RevTree, revs []string, parents []int, j int) bool
+//@   is (parents[j] == -1 && (tree[revs[j]].Parent == "" || !(tree[revs[j]].Parent in tree))) ||
+//@      (parents[j] >= 0 && revs[parents[j]] == tree[revs[j]].Parent)
+//@ pred indexOK(tree RevTree, revIndexes map[string]int, revs []string) bool
+//@   is forall k string :: {k in revIndexes} {revIndexes[k]} (k in revIndexes) ==> (k == "" && revIndexes[k] == -1) || (k != "" && (k in tree) && revIndexes[k] >= 0 && revs[revIndexes[k]] == k)
+
+//@ func RevTree.MarshalJSON
+//@   requires treeWF(tree) && !("" in tree)
+//@   modifies *
+//@   before[parents] call JSONMarshal#1 forall j int :: {rep.Revs[j]} 0 <= j && j < len(rep.Revs) && (rep.Revs[j] in tree) ==> parentSlotOK(tree, rep.Revs, rep.Parents, j)
+//@   loop 1 invariant[index]   indexOK(tree, revIndexes, rep.Revs) && i >= 0 && (forall k string :: {revIndexes[k]} (k in revIndexes) ==> revIndexes[k] < i)
+//@   loop 1 invariant[visited] forall k string :: {k in #visited} (k in #visited) ==> (k in revIndexes)
+//@   loop 2 invariant[index]   indexOK(tree, revIndexes, rep.Revs)
+//@   loop 2 invariant[all]     forall k string :: {k in tree} (k in tree) ==> (k in revIndexes)
+//@   loop 2 invariant[done]    forall j int :: {rep.Revs[j]} 0 <= j && j <= #index && (rep.Revs[j] in tree) ==> parentSlotOK(tree, rep.Revs, rep.Parents, j)
